@@ -326,6 +326,8 @@ func c14ScenariosUnchecked() []c14Scenario {
 			o("APP_REMOVE", "gapp"), o("TIMER_PH", "gapp"), o("SCHEDULE")),
 		mk("S25-queue-removal-vs-submission", []world.Op{op("NODE_ADD", "n1"), op("NODE_ADD", "n2")},
 			[]world.Op{{K: "CONFIG", N: 1}}, []world.Op{op("APP_ADD", "app2"), op("ASK", "b1")}, o("SCHEDULE")),
+		mk("S26-two-cycles-vs-ask-release-sequence", setup[:6], []world.Op{op("SCHEDULE"), op("SCHEDULE")}, []world.Op{op("ASK", "a2"), op("RELEASE", "a1"), op("RELEASE", "a2")}, o("REST")),
+		mk("S28-two-cycles-vs-submission-vs-reload", setup, []world.Op{op("SCHEDULE"), op("SCHEDULE")}, []world.Op{op("APP_ADD", "app3"), op("ASK", "c1")}, []world.Op{{K: "CONFIG", N: 1}}),
 		mkMaxApps("S15-maxapps-restart-vs-schedule"),
 		mkLifecycle("S16-completing-timer-vs-new-ask"),
 		mkUGMReload("S17-limits-reload-vs-schedule"),
